@@ -365,7 +365,10 @@ func (e *env) genOp(r *core.Rng, root reflect.Value) opRec {
 		}
 		return false
 	}
-	isArrLike := func(l loc) bool { k := kindOf(l); return (k == reflect.Slice || k == reflect.Array) && !derefIsNilPtr(l.v) }
+	isArrLike := func(l loc) bool {
+		k := kindOf(l)
+		return (k == reflect.Slice || k == reflect.Array) && !derefIsNilPtr(l.v)
+	}
 	holder := func() string { return fmt.Sprintf("h%d", r.Intn(4)) }
 	for attempt := 0; attempt < 8; attempt++ {
 		switch r.PickW([]int{26, 8, 12, 6, 5, 5, 10, 6, 5, 4, 4, 4, 5, 4}) {
@@ -644,8 +647,19 @@ func (e *env) genOp(r *core.Rng, root reflect.Value) opRec {
 				if e.heldPtr[h] && !fixedPtrSlot() {
 					continue // the wrapper of a pointer-typed slot exports the slot's current content (known finding C13-ptr-element-slot-alias)
 				}
-				if hl, ok := e.resolve(root, hp); !fixedRebind() && (!ok || hl.t != l.t) {
+				hl, hok := e.resolve(root, hp)
+				if !fixedRebind() && (!hok || hl.t != l.t) {
 					continue // a failing element conversion leaves the re-attached wrapper with a stale element cache (C13-rebind-incomplete)
+				}
+				if d := derefAll(l.v); d.IsValid() && d.Kind() == reflect.Map && (!hok || hl.t != l.t) {
+					if k := d.Type().Key().Kind(); k == reflect.Float32 || k == reflect.Float64 {
+						continue // an object with non-numeric property names would put the NaN key into a float-keyed map
+					}
+				}
+				if !fixedCyclicJoin() && (!hok || sharesRef(hl.v, root, l.steps)) {
+					// the written value (transitively) references a container on the path to the target: a cyclic Go value, whose
+					// toString / join recurses until the Go stack overflows (known finding C13-cyclic-goslice-join)
+					continue
 				}
 				return opRec{Kind: "set-held", JS: l.js + " = " + h, Src: h + "=" + hp}
 			}
@@ -715,6 +729,107 @@ func nestedContainer(t reflect.Type) bool {
 // hasPtrMethods: *t has methods that t lacks (pointer-receiver Stringer / error implementations).
 func hasPtrMethods(t reflect.Type) bool {
 	return t.Kind() != reflect.Ptr && t.Kind() != reflect.Interface && reflect.PointerTo(t).NumMethod() > t.NumMethod()
+}
+
+// refIDs collects the identities of everything reachable by reference from v (bounded).
+func refIDs(v reflect.Value, out map[string]bool, depth int) {
+	if depth > 8 || !v.IsValid() || len(out) > 400 {
+		return
+	}
+	switch v.Kind() {
+	case reflect.Ptr:
+		if !v.IsNil() {
+			out[fmt.Sprintf("p%x", v.Pointer())] = true
+			refIDs(v.Elem(), out, depth+1)
+		}
+	case reflect.Interface:
+		if !v.IsNil() {
+			refIDs(v.Elem(), out, depth+1)
+		}
+	case reflect.Map:
+		if !v.IsNil() {
+			out[fmt.Sprintf("m%x", v.Pointer())] = true
+			it := v.MapRange()
+			for it.Next() {
+				refIDs(it.Value(), out, depth+1)
+			}
+		}
+	case reflect.Slice:
+		if v.Len() > 0 {
+			out[fmt.Sprintf("s%x", v.Pointer())] = true
+		}
+		fallthrough
+	case reflect.Array:
+		for i := 0; i < v.Len(); i++ {
+			refIDs(v.Index(i), out, depth+1)
+		}
+	case reflect.Struct:
+		if v.Type() == typTime {
+			return
+		}
+		for i := 0; i < v.NumField(); i++ {
+			refIDs(v.Field(i), out, depth+1)
+		}
+	}
+}
+
+// sharesRef: does val reference a container that lies on the path from root along steps?
+func sharesRef(val, root reflect.Value, steps []step) bool {
+	ids := map[string]bool{}
+	refIDs(val, ids, 0)
+	if len(ids) == 0 {
+		return false
+	}
+	cur := root
+	for i := 0; i <= len(steps); i++ {
+		// identities of the containers at this level (pointers, maps, slices)
+		x := cur
+		for x.IsValid() && (x.Kind() == reflect.Ptr || x.Kind() == reflect.Interface) && !x.IsNil() {
+			if x.Kind() == reflect.Ptr && ids[fmt.Sprintf("p%x", x.Pointer())] {
+				return true
+			}
+			x = x.Elem()
+		}
+		if !x.IsValid() {
+			return false
+		}
+		switch x.Kind() {
+		case reflect.Map:
+			if !x.IsNil() && ids[fmt.Sprintf("m%x", x.Pointer())] {
+				return true
+			}
+		case reflect.Slice:
+			if x.Len() > 0 && ids[fmt.Sprintf("s%x", x.Pointer())] {
+				return true
+			}
+		}
+		if i == len(steps) {
+			break
+		}
+		st := steps[i]
+		switch st.kind {
+		case 'f':
+			if x.Kind() != reflect.Struct {
+				return false
+			}
+			f, ok := fieldByIndexSafe(x, st.fidx)
+			if !ok {
+				return false
+			}
+			cur = f
+		case 'i':
+			if (x.Kind() != reflect.Slice && x.Kind() != reflect.Array) || st.idx >= x.Len() {
+				return false
+			}
+			cur = x.Index(st.idx)
+		case 'k':
+			if x.Kind() != reflect.Map {
+				return false
+			}
+			cur = x.MapIndex(st.key)
+		}
+	}
+	return false
 }
 
 // slotAliased: wrappers of elements of this type keep referring to the slot they were read from (non-compound, not an unnamed primitive).
